@@ -4,9 +4,10 @@
 set -u
 export GOFLAGS=-mod=mod GOPROXY=off GOSUMDB=off GOTOOLCHAIN=local
 ID=$1; VAR=$2; CID=${3:-$1}; TIER=${4:-quick}
-SRC=/tmp/seed/$ID/out/$VAR
+ROUND=/tmp/seed; case "$VAR" in c|d) ROUND=/tmp/seed2;; esac
+SRC=$ROUND/$ID/out/$VAR
 [ -d "$SRC" ] || SRC=/verif/seeded/$ID-$VAR
-WT=/tmp/seed/$ID/wt
+WT=$ROUND/$ID/wt
 DST=/verif/seeded/$ID-$VAR
 mkdir -p $DST
 cp -n $SRC/patch.diff $SRC/meta.json $DST/ 2>/dev/null
